@@ -6,6 +6,7 @@ CONSTANTS
   MaxLen = 9
   MaxOps = 8
   Variant = "bisect"
+  Sharing = "copy"
   InitSets <- MCInitSets
 INVARIANT EmitBehaviours
 CHECK_DEADLOCK FALSE
